@@ -190,6 +190,18 @@ func safeGet(g getter, n string) (v interface{}, err error, pan interface{}, sta
 	return
 }
 
+// sameVal: DeepEqual, except that funcs, channels and maps (never equal under
+// DeepEqual unless nil / deeply equal) are compared by identity.
+func sameVal(a, b interface{}) bool {
+	if a != nil && b != nil && reflect.TypeOf(a) == reflect.TypeOf(b) {
+		switch reflect.TypeOf(a).Kind() {
+		case reflect.Func, reflect.Chan, reflect.Map:
+			return reflect.ValueOf(a).Pointer() == reflect.ValueOf(b).Pointer()
+		}
+	}
+	return reflect.DeepEqual(a, b)
+}
+
 // libSite extracts the innermost library frame below the panic from a debug.Stack().
 func libSite(stack string) string {
 	lines := strings.Split(stack, "\n")
@@ -214,8 +226,8 @@ func libSite(stack string) string {
 
 func trimStack(st string) string {
 	lines := strings.Split(st, "\n")
-	if len(lines) > 30 {
-		lines = lines[:30]
+	if len(lines) > 16 {
+		lines = lines[:16]
 	}
 	return strings.Join(lines, "\n")
 }
@@ -309,7 +321,7 @@ func gridOne(c *mon.Case, o gridObj, pg *progress) string {
 				c.Violate("opt-panic:"+cell+"/get", "%s: GetOption(%q) after accepted SetOption(%s) panicked: %v (in %s)\n%s", o.Desc, n, ov.Label, gp, libSite(gst), trimStack(gst))
 			case gerr == nil:
 				roundtrips++
-				if !reflect.DeepEqual(got, ov.V) {
+				if !sameVal(got, ov.V) {
 					c.Violate("opt-roundtrip:"+cell, "%s: SetOption(%q, %s) was accepted but GetOption then returned %#v (%T)", o.Desc, n, ov.Label, got, got)
 				}
 			case isBadOpt(o.Kind, gerr):
@@ -479,7 +491,7 @@ func runGrid(c *mon.Case, sp spec) {
 		gridNoDetach(c, lk, proto)
 		// and once more after the pipe has been closed
 		sp1.Close()
-		c.AwaitOrViolate("harness:detach-stuck", "pipe Close leading to Detached", func() bool { return lk.SW.nDetached() >= 1 }, mon.AwaitOpts{})
+		awaitOrInconcl(c, "pipe Close leading to Detached", func() bool { return lk.SW.nDetached() >= 1 }, mon.AwaitOpts{})
 		gridRun(c, []gridObj{{Kind: "pipe", Label: "pipe." + tr, Desc: fmt.Sprintf("%s pipe (accepted side, %s socket, after Close)", tr, proto), G: sp1}})
 	}
 }
